@@ -233,6 +233,46 @@ pub fn check(id: &str, tier: &str, seed: u64) -> Option<i32> {
     }
 }
 
+/// C20 thorough stage 2: the directories left by crashes must satisfy the reclamation clause after
+/// one reopen. Returns (exit code, coverage additions).
+#[cfg(feature = "shim")]
+pub fn c20_crash_stage(seed: u64) -> (i32, serde_json::Value) {
+    let mut g = crash_profile();
+    g.max_ops = 30;
+    let out = explore_generic(
+        || crate::gen::case(&g),
+        1200,
+        seed ^ 0xC20,
+        200,
+        |c: &crate::spec::Case| {
+            crate::crash::set_reclaim_check(true);
+            let r = crate::crash::run(c, false);
+            crate::crash::set_reclaim_check(false);
+            r
+        },
+        crate::crash::nontrivial,
+        &crate::runner::load_known("C20"),
+        crate::runner::summarize_case,
+        600_000,
+    );
+    let images = out.hist.get("crash.images").copied().unwrap_or(0);
+    let mut code = 0;
+    if let Some((case, f)) = &out.failure {
+        if f.what.contains("[C20]") {
+            let p = crate::generic::write_replay_generic("C20", "crash-reclaim", case, f, json!({"stage": "crash images"}));
+            println!("FAILURE property=C20 : {}", f.what);
+            println!("VIOLATION property=C20 replay={}", p.display());
+            code = 1;
+        } else {
+            println!("NOTE: the C20 crash-image stage hit a failure that belongs to C05, not C20: {}", f.what);
+        }
+    }
+    (
+        code,
+        json!({"crash_image_stage": {"histories": out.evaluations, "images_reopened_and_listed": images}}),
+    )
+}
+
 fn crash_profile() -> crate::gen::GenProfile {
     use crate::gen::{BlobMode, GenProfile, Weights};
     let mut w = Weights::base();
@@ -296,6 +336,14 @@ pub fn replay(id: &str, path: &Path) -> Option<i32> {
         "C05" => {
             let case: crate::spec::Case = serde_json::from_value(v["case"].clone()).ok()?;
             Some(report(crate::crash::run(&case, true)))
+        }
+        #[cfg(feature = "shim")]
+        "C20" if v["kind"] == "crash-reclaim" => {
+            let case: crate::spec::Case = serde_json::from_value(v["case"].clone()).ok()?;
+            crate::crash::set_reclaim_check(true);
+            let r = crate::crash::run(&case, false);
+            crate::crash::set_reclaim_check(false);
+            Some(report(r))
         }
         #[cfg(feature = "shim")]
         "C16" => {
